@@ -663,7 +663,8 @@ func (vc *FnVC) structAppend(st *State, s, src *Val, elem types.Type, rt types.T
 			sx("select", old, lf.ref(sx(efn, sx("s.base", s.S), sx("+", sx("s.off", s.S), ei)))),
 			sx("select", old, lf.ref(sx(efn, sx("s.base", src.S), sx("+", sx("s.off", src.S), sx("-", ei, sx("s.len", s.S)))))))
 		body := smtIte(smtAnd(inPlace, tgt1), val1, smtIte(smtAnd(smtNot(inPlace), tgt2), val2, sx("select", old, "r")))
-		vc.assume(st, fmt.Sprintf("(forall ((r Int)) (! (= (select %s r) %s) :pattern ((select %s r))))", nf, body, nf))
+		// definitional (nf is a fresh constant): a global fact, so that it is sliced away when nf is irrelevant
+		vc.factDef(nf, fmt.Sprintf("(forall ((r Int)) (! (= (select %s r) %s) :pattern ((select %s r))))", nf, body, nf))
 		st.m[lf.key] = nf
 	}
 	return &Val{T: rt, S: res}
